@@ -432,3 +432,31 @@ def runD (prog : List PStmt) (d : Dec) : List DOp → Except Fault Dec
     | .ok d' => runD prog d' ops
 
 end Rosu.Lifetime
+
+/-! ## from the facts the translator extracts to the model's parameters -/
+
+namespace Rosu.Lifetime
+
+/-- Drop order of the two fields, read off the declared field list. -/
+def orderOf (fields : List String) (borrower owner : String) : List Field :=
+  fields.filterMap fun f =>
+    if f == borrower then some Field.borrower else if f == owner then some Field.owner else none
+
+/-- Storage types that are heap allocations whose address does not change when the owning handle
+moves. -/
+def heapStorageTypes : List String := ["Box<[OsuObject]>", "Vec<RefCount<TaikoDifficultyObject>>"]
+
+/-- Borrower types whose pointers sit in a heap block of their own. -/
+def boxedBorrowerTypes : List String := ["Box<[OsuDifficultyObject<'static>]>"]
+
+/-- The layout the model uses for a calculator struct, computed from the source facts:
+declared field names, the borrower's type, the type of the storage field the pointers point into,
+and the crate's `impl Drop` list (any `Drop` impl is conservatively taken to dereference). -/
+def layoutOf (fields : List (String × String × String)) (borrower owner : String)
+    (storageTy : String) (dropImpls : List String) : Layout :=
+  { order := orderOf (fields.map (·.2.1)) borrower owner
+    holderBoxed := (fields.filter (·.2.1 == borrower)).any (boxedBorrowerTypes.contains ·.2.2)
+    glueDerefs := !dropImpls.isEmpty
+    ownerInline := !(heapStorageTypes.contains storageTy) }
+
+end Rosu.Lifetime
